@@ -520,6 +520,13 @@ func genVal(c *Chooser, g GenCfg, depth int) *Val {
 		for i := 0; i < n; i++ {
 			v.Elems = append(v.Elems, genVal(c, g, depth+1))
 		}
+		if c.Chance(1, 8) {
+			// members that are easily confused with one another: empty
+			// containers, the empty string, zero, false
+			for i := 0; i < c.Range(1, 3); i++ {
+				v.Elems = append(v.Elems, []*Val{{K: 'a'}, {K: 'o'}, vs(""), vn(0), {K: 'b'}, vs("0")}[c.Int(6)])
+			}
+		}
 		return v
 	case 2: // array over a small alphabet: repeats and reorderings happen
 		v := &Val{K: 'a'}
